@@ -300,7 +300,16 @@ stmt_lets :
 			$$.SetPosition($1[0].Position())
 		} else {
 			if len($1) == 2 && len($3) == 1 {
-				if _, ok := $3[0].(*ast.ItemExpr); ok {
+				// v, ok = m[k] - also when the index expression is written in parentheses
+				rhs := $3[0]
+				for {
+					paren, isParen := rhs.(*ast.ParenExpr)
+					if !isParen {
+						break
+					}
+					rhs = paren.SubExpr
+				}
+				if _, ok := rhs.(*ast.ItemExpr); ok {
 					$$ = &ast.LetMapItemStmt{LHSS: $1, RHS: $3[0]}
 				} else {
 					$$ = &ast.LetsStmt{LHSS: $1, RHSS: $3}
